@@ -193,6 +193,19 @@ DoCopy(S, o) ==
            KillBelow(S.refs, w.d, w.P),
            IF S.docs[w.d].ovf THEN "false" ELSE "true")
 
+\* Dst.set(view) where view is a sized string (string_view / JsonString) that points INTO the
+\* document's own string storage: the first o.i bytes of the string currently at the source.
+\* A copied string is independent of its source from the moment the call returns, whatever the
+\* source was (C14), so the result is simply the prefix.
+PlainTokens == {"a", "ab", "b", "hello", "42", "1.5", "-3e2", "x y", "true", "key", "null", "a b"}
+PrefixSource(S, o) == LET q == ReadRes(S, o.sb, o.si, o.sp) IN q.ok /\ q.v.t = "s" /\ q.v.s \in PlainTokens /\ o.i <= Len(q.v.s)
+DoSetPrefix(S, o) ==
+  LET q == ReadRes(S, o.sb, o.si, o.sp)
+      w == WriteRes(S, o.tb, o.ti, o.tp) IN
+  IF ~w.ok THEN Res(S.docs, S.refs, "dontcare")
+  ELSE Res(SetRoot(S, w.d, Put(w.root, w.P, StrV(SubSeq(q.v.s, 1, o.i)))), KillBelow(S.refs, w.d, w.P),
+           IF S.docs[w.d].ovf THEN "false" ELSE "true")
+
 \* doc.set(src) : clear() then copy (source in another document, or unbound)
 DoDocSet(S, o) ==
   LET q == ReadRes(S, o.sb, o.si, o.sp) IN
@@ -248,6 +261,7 @@ Step(S, o) ==
     [] o.op = "rmidx"    -> DoRemoveIdx(S, o)
     [] o.op = "rmkey"    -> DoRemoveKey(S, o)
     [] o.op = "copy"     -> DoCopy(S, o)
+    [] o.op = "setprefix" -> DoSetPrefix(S, o)
     [] o.op = "docset"   -> DoDocSet(S, o)
     [] o.op = "docsetv"  -> DoDocSetV(S, o)
     [] o.op = "docto"    -> DoDocTo(S, o)
@@ -270,6 +284,7 @@ NoDeadRef(S, o) == \A r \in DOMAIN S.refs : UsesRef(o, r) => S.refs[r].st # "dea
 \* source and destination of a copy do not overlap
 NoAlias(S, o) ==
   /\ o.op = "copy" => ~CopyAlias(S, o)
+  /\ o.op = "setprefix" => (PrefixSource(S, o) /\ ~CopyAlias(S, o))
   /\ o.op = "docset" =>
         LET q == ReadRes(S, o.sb, o.si, o.sp) IN ~(q.ok /\ q.d = o.ti)
 
